@@ -878,6 +878,14 @@ def absOp (h : Heap) : HOp → Op
   | .get layer t c => .get layer t c
   | _ => .callerEdit
 
+/-- the calls on the laser (as opposed to edits of objects by whoever holds them) -/
+def HOp.isCall : HOp → Bool
+  | .add .. => true
+  | .remove .. => true
+  | .rename .. => true
+  | .get .. => true
+  | _ => false
+
 /-- the references the laser holds point at existing objects -/
 def Valid (w : World) : Prop :=
   w.laser.cal < w.heap.dicts.length ∧ (∀ e ∈ w.heap.dict w.laser.cal, e.2 < w.heap.cals.length) ∧
